@@ -288,6 +288,8 @@ def frame_case(rng, max_n=6, max_m=5, big=False):
     spec = frame_spec(rng, n, m, family, ik, ik if not big else ('int', 'str', 'auto'))
     c = {'k': 'frame', 'spec': spec, 'method': method, 'axis': axis, 'asc': rng.random() < 0.5, 'keyfn': None,
          'labels': [], 'single': False}
+    if m >= 2 and rng.random() < (0.5 if (method == 'sort_columns' or axis == 0) else 0.15):
+        c['grown'] = True      # a FrameGO that grew by its last column straight before the sort (build_grown_frame)
     if method == 'sort_values':
         extent = m if axis == 1 else n
         if extent == 0:
@@ -525,6 +527,9 @@ def frame_wire(c):
     n = spec['rows']
     rows = [wire_list([mtok(a[i]) for a in arrays]) for i in range(n)]
     dts = gen.spec_dtypes(spec)
+    if c.get('grown') and grown_applies(spec):
+        # the last column arrived on its own: it has the dtype of its own array, the others those of the head's blocks
+        dts = gen.spec_dtypes(grown_head_spec(spec)) + gen.spec_dtypes({**spec, 'cols': spec['cols'][-1:], 'layout': [[1, False]]})
     return ('(frame ' + mtok(untok(spec['name'])) + ' (index ' + ' '.join(labels_wire(spec['index'])) + ') (columns '
             + ' '.join(labels_wire(spec['columns'])) + ') (dtypes ' + ' '.join(dts) + ') (rows ' + ' '.join(rows) + '))')
 
@@ -564,6 +569,47 @@ def build_series(c):
     return sf.Series(arr, index=gen.build_index(c['index']), name=untok(c['name']))
 
 
+def grown_head_spec(spec):
+    """`spec` without its last column (the last block shrinks by one)"""
+    import copy
+    head = copy.deepcopy(spec)
+    head['cols'] = head['cols'][:-1]
+    head['columns']['labels'] = head['columns']['labels'][:-1]
+    lay = [list(b) for b in head['layout']]
+    lay[-1][0] -= 1
+    head['layout'] = [b for b in lay if b[0] > 0]
+    return head
+
+
+def grown_applies(spec):
+    return len(spec['cols']) >= 2 and len(spec['columns']['labels']) == len(spec['cols'])
+
+
+def build_grown_frame(spec):
+    """The frame of `spec` as a FrameGO that was built without its last column, had every cache of its axes read, and then
+    received that column by assignment: the sort that follows is the FIRST thing that looks at the grown axis."""
+    import copy
+    import static_frame as sf
+    m = len(spec['cols'])
+    if not grown_applies(spec):
+        return gen.build_frame(spec, cls=sf.FrameGO)
+    head = grown_head_spec(spec)
+    g = gen.build_frame(head, cls=sf.FrameGO)
+    # read what a user reads before going on: labels, values, length, per-depth arrays of a hierarchy
+    _ = (g.columns.values, len(g.columns), list(g.columns), g.values, g.shape)
+    if g.columns.depth > 1:
+        _ = [g.columns.values_at_depth(d) for d in range(g.columns.depth)]
+    full_cols = gen.build_index(spec['columns'])
+    if full_cols is None:          # automatic integer columns: the next integer
+        label = m - 1
+    else:
+        last = full_cols.values[-1]
+        label = tuple(last) if full_cols.depth > 1 else last
+        label = label.item() if isinstance(label, np.generic) and not isinstance(label, np.datetime64) else label
+    g[label] = gen.col_array(spec['cols'][-1]['dt'], spec['cols'][-1]['v'])
+    return g
+
+
 def run_real(c):
     """Run the real method; returns ('ok', result, source) | ('err', cat, exception)."""
     import static_frame as sf
@@ -578,7 +624,7 @@ def run_real(c):
             ix = gen.build_index(c['index'])
             key = make_keyfn(kf) if kf else None
             return ('ok', ix.sort(ascending=c['asc'], key=key), ix)
-        f = gen.build_frame(c['spec'])
+        f = build_grown_frame(c['spec']) if c.get('grown') else gen.build_frame(c['spec'])
         if c['method'] in ('sort_index', 'sort_columns'):
             key = make_keyfn(kf) if kf else None
             return ('ok', getattr(f, c['method'])(ascending=c['asc'], key=key), f)
